@@ -60,6 +60,12 @@ pub fn write_binary(
 /// Remove instance / property names from an error message so the key is a class of error.
 pub fn strip_names(msg: &str) -> String {
     let mut s = msg.to_string();
+    // "line 5, column 64: ..." position prefixes of XML errors are not part of the signature
+    if s.starts_with("line ") {
+        if let Some(i) = s.find(": ") {
+            s = s[i + 2..].to_string();
+        }
+    }
     for pool in [
         forest::UNKNOWN_PROP_POOL,
         forest::UNKNOWN_CLASS_POOL,
@@ -239,8 +245,8 @@ pub fn run(ctx: &Ctx) -> PropertyReport {
     let sub = crate::engine::replay_subcheck_or_all(ctx);
 
     if sub.runs("roundtrip") {
-        let cases = ctx.cfg.cases(6000, 300_000);
-        let max_nodes = ctx.cfg.tier.pick(14, 40);
+        let cases = ctx.cfg.cases(40_000, 1_000_000);
+        let max_nodes = ctx.cfg.tier.pick(16, 40);
         let mut r = ctx.run_prop(
             "roundtrip",
             cases,
@@ -277,7 +283,7 @@ pub fn run(ctx: &Ctx) -> PropertyReport {
         rep.push(ctx.run_list("rotations", cases, true, rotation_body));
     }
 
-    if sub.runs("deep") && ctx.cfg.replay.is_some() || sub.runs("deep") {
+    if sub.runs("deep") {
         let cases = ctx.cfg.cases(40, 1000);
         let nodes = ctx.cfg.tier.pick(300, 2000);
         let mut p = binary_profile(nodes);
